@@ -186,20 +186,26 @@ class Dist(StandIn):
 
 def r18_5(ctx):
     out = Outcome("R18.5", "`point in segment`: False outside the bounding box; otherwise True iff one of the projected "
-                           "points is closer than the tolerance", floor=4)
+                           "points is closer than the tolerance", floor=5)
     out.exhaustive = True
     fn = ctx.fn("curve.PlanarCurve.__contains__")
     tol = Fr(1, 10**6)
     cases = [("outside the box", False, [Fr(0)], False), ("in the box, on the curve", True, [Fr(3), Fr(0)], True),
              ("in the box, within tolerance", True, [tol / 2], True), ("in the box, farther than the tolerance", True, [tol * 3, Fr(1)], False),
              ("in the box, a hundred tolerances away", True, [tol * 100], False),
-             ("in the box, no projection", True, [], False)]
+             ("in the box, no projection", True, [], False),
+             # a control point between the ends of a curved segment is in the box and off the curve
+             ("the query is the middle control point of a curved segment, a hundred tolerances away", True, [tol * 100], False)]
     for label, inbox, dists, want in cases:
+        middle = "P" if label.startswith("the query is the middle") else "M"
         class Bx(StandIn):
             def __contains__(self, p):
                 return inbox
 
         class Cv(StandIn):
+            ctrlpoints = ("A", middle, "B")
+            degree, npts = 2, 3
+
             def box(self):
                 return Bx()
 
